@@ -457,6 +457,28 @@ func (fx *FnCtx) evalFrame(env *Env, exprs []SpecExpr, srcs []string) []FrameIte
 				out = append(out, FrameItem{Kind: PObj, Root: p.Root, Ref: p.Ref, Src: src})
 				continue
 			}
+			if x.Fun == "object" && len(x.Args) == 1 {
+				// object(i): every field of the object an interface value holds (its dynamic type must be
+				// statically known at the call site and be a pointer to a struct); nothing for a nil interface
+				sv := fx.evalSpec(env, x.Args[0])
+				if _, ok := sv.V.T.Underlying().(*types.Interface); !ok || len(sv.V.L) != 2 {
+					fx.fail("modifies %s: not an interface value", src)
+				}
+				tag := sv.V.L[0]
+				if !tag.IsNum() {
+					fx.fail("modifies %s: the dynamic type of the interface value is not statically known here", src)
+				}
+				if tag.Val.Sign() == 0 {
+					continue
+				}
+				dt := fx.V.tagTypes[int(tag.Val.Int64())]
+				pt, ok := dt.Underlying().(*types.Pointer)
+				if !ok {
+					continue // a value type boxed in the interface: the callee gets a copy
+				}
+				out = append(out, FrameItem{Kind: PObj, Root: pt.Elem(), Ref: sv.V.L[1], Src: src})
+				continue
+			}
 			if x.Fun == "backing" && len(x.Args) == 1 {
 				sv := fx.evalSpec(env, x.Args[0])
 				out = append(out, FrameItem{Kind: PElem, Root: elemTypeOf(sv.V.T), Arr: sv.V.L[0], Src: src})
@@ -464,6 +486,23 @@ func (fx *FnCtx) evalFrame(env *Env, exprs []SpecExpr, srcs []string) []FrameIte
 			}
 			fx.fail("modifies %s: unsupported form", src)
 		case *SField:
+			if oc, ok := x.X.(*SCall); ok && oc.Fun == "object" && len(oc.Args) == 1 {
+				// object(i).f : field f of the object an interface value holds, if its (statically known)
+				// dynamic type has such a field; the whole object otherwise
+				items := fx.evalFrame(env, []SpecExpr{oc}, []string{src})
+				for _, it := range items {
+					if stt, ok := it.Root.Underlying().(*types.Struct); ok {
+						for k := 0; k < stt.NumFields(); k++ {
+							if stt.Field(k).Name() == x.Name {
+								off, n := tc.fieldRange(stt, k)
+								it.Off, it.N = off, n
+							}
+						}
+					}
+					out = append(out, it)
+				}
+				continue
+			}
 			// p.f : one field of the object p
 			sv := fx.evalSpec(env, x.X)
 			p := fx.asPtr(sv.V)
